@@ -7,7 +7,9 @@ import (
 	"fmt"
 	"os"
 	"os/exec"
+	"sort"
 	"strings"
+	"sync"
 )
 
 // Path returns the model executable path (env VERIF_MODEL or the default build location).
@@ -18,13 +20,75 @@ func Path() string {
 	return "/verif/lean/.lake/build/bin/kmip-model"
 }
 
-// Run sends all lines to a fresh model process and returns one answer per line.
+// Workers is the number of model processes Run spreads the lines over. The default, 1, is the historical
+// behaviour (one process sees all lines in order). An engine whose protocol lines are all stateless (each answer a
+// pure function of its own line) may raise it inside its Run function; the answers come back in request order.
+var Workers = 1
+
+// Run sends all lines to a fresh model process (or to Workers processes, see above) and returns one answer per line.
 func Run(lines []string) ([]string, error) {
 	for i, l := range lines {
 		if strings.ContainsAny(l, "\n\r") {
 			return nil, fmt.Errorf("line %d contains a newline", i)
 		}
 	}
+	w := Workers
+	if w > len(lines)/64 {
+		w = len(lines) / 64
+	}
+	if w <= 1 {
+		return runOne(lines)
+	}
+	// balance by bytes: longest lines first, each to the least loaded worker
+	order := make([]int, len(lines))
+	for i := range order {
+		order[i] = i
+	}
+	sort.SliceStable(order, func(a, b int) bool { return len(lines[order[a]]) > len(lines[order[b]]) })
+	load := make([]int, w)
+	part := make([][]int, w)
+	for _, i := range order {
+		k := 0
+		for j := 1; j < w; j++ {
+			if load[j] < load[k] {
+				k = j
+			}
+		}
+		load[k] += len(lines[i]) + 64
+		part[k] = append(part[k], i)
+	}
+	res := make([]string, len(lines))
+	errs := make([]error, w)
+	var wg sync.WaitGroup
+	for k := 0; k < w; k++ {
+		wg.Add(1)
+		go func(k int) {
+			defer wg.Done()
+			sort.Ints(part[k])
+			sub := make([]string, len(part[k]))
+			for j, i := range part[k] {
+				sub[j] = lines[i]
+			}
+			ans, err := runOne(sub)
+			if err != nil {
+				errs[k] = err
+				return
+			}
+			for j, i := range part[k] {
+				res[i] = ans[j]
+			}
+		}(k)
+	}
+	wg.Wait()
+	for _, err := range errs {
+		if err != nil {
+			return nil, err
+		}
+	}
+	return res, nil
+}
+
+func runOne(lines []string) ([]string, error) {
 	cmd := exec.Command(Path())
 	cmd.Stdin = strings.NewReader(strings.Join(lines, "\n") + "\n")
 	var out bytes.Buffer
